@@ -25,14 +25,14 @@ def strip(x) -> str:
 
 
 class AbiWorld:
-    def __init__(self, ctx):
+    def __init__(self, ctx, modules=None, real_classes=()):
         self.ctx = ctx
         self.model = ctx.model
         self.me: Optional[MiniEval] = None
         self.class_syms: Dict[str, Sym] = {}
         self.helpers: Dict[str, Any] = {}
         self.consts: Dict[str, Any] = {}
-        for mn in ABI_MODULES:
+        for mn in (ABI_MODULES if modules is None else modules):
             m = self.model.modules.get(mn)
             if m is None:
                 continue
@@ -44,7 +44,7 @@ class AbiWorld:
                 if ok and isinstance(c, (int, str, tuple, list, frozenset, set, bytes)):
                     self.consts.setdefault(k, c)
         self.instances: Dict[str, Sym] = {}
-        self.real_classes: set = set()
+        self.real_classes: set = set(real_classes)
         self.me = MiniEval(self.oracle(), "abi-world", permissive=True, resolver=self.resolver)
         self.setup(self.me)
 
@@ -57,6 +57,10 @@ class AbiWorld:
         s.methods["__call__"] = lambda *a, **k: self.construct(cname, list(a), k)
         self.class_syms[cname] = s
         for k in reversed(self.model.mro(c)):
+            for an, av in k.class_attrs.items():
+                ok, cv = try_const(self.model, k.module, av)
+                if ok and isinstance(cv, (int, str, bool, type(None))):
+                    s.attrs[an] = cv
             for nm, fi in k.methods.items():
                 decs = fi.decorators()
                 if "classmethod" in decs:
